@@ -33,7 +33,7 @@ def main():
         k = rng.choice([1, 2, 2, 3])
         cb.append([[rng.choice([None, None, "kilo", "milli", "kibi", [10, 7], [1, 3]]), rng.choice(bn), rng.choice([1, 1, 2, -1, -2, 3])] for _ in range(k)])
     cb += [[["kilo", "one", 1]], [[None, "meter", 1], [None, "meter", -1]], [["kilo", "meter", 1], [None, "meter", -1]]]
-    codec.run(c, rng, cb, 60 if quick else 800)
+    codec.run(c, rng, cb, 60 if quick else 300)
     # ---------------- implementation: every registered object through every codec, plus compound / prefixed units and quantities
     names = sorted(n for n, o in exp["unit_by_name"].items())
     prefixes = sorted(n for n, p in exp["prefix_by_name"].items() if not isinstance(p, dict))
